@@ -863,30 +863,42 @@ impl<P: HProblem> Observer<P> for Obs<P> {
         let data = self.data.clone();
         let mut d = data.lock().unwrap();
         let height = state.try_borrow::<Populations<P>>().map(|p| p.len()).unwrap_or(0);
+        // a nested template's own outermost loop is the second one entered (the first is the
+        // harness' restart loop, each pass of which leaves one more population behind)
+        let main = if self.case.nest > 0 { 2 } else { 1 };
         match event {
             LoopEvent::Enter => {
                 self.loop_depth += 1;
             }
             LoopEvent::PassBegin => {
                 self.pass_heights.push(height);
-                if self.loop_depth == 1 {
+                if self.loop_depth < main {
+                    // a restart: the nested heuristic begins again in a fresh scope
+                    self.swarm_ready = false;
+                    self.resized = false;
+                }
+                if self.loop_depth == main {
                     self.calls_at_pass_begin = problem.instr().n_calls();
                 }
             }
             LoopEvent::PassEnd => {
                 if let Some(h0) = self.pass_heights.pop() {
-                    if h0 != height {
+                    if self.loop_depth < main {
+                        if h0 + 1 != height {
+                            d.violate("C16", format!("stack-height-of-nested-run template={}", self.case.kind.name()), format!("{}: run as a nested heuristic, one restart took the stack from {h0} to {height} populations", self.case.kind.name()));
+                        }
+                    } else if h0 != height {
                         d.violate(
                             "C16",
-                            format!("stack-height-changed-in-pass template={} loop-depth={}", self.case.kind.name(), self.loop_depth),
-                            format!("{}: a pass of the loop at nesting depth {} began with {h0} populations on the stack and ended with {height}", self.case.kind.name(), self.loop_depth),
+                            format!("stack-height-changed-in-pass template={} loop-depth={}", self.case.kind.name(), self.loop_depth + 1 - main),
+                            format!("{}: a pass of the loop at nesting depth {} began with {h0} populations on the stack and ended with {height}", self.case.kind.name(), self.loop_depth + 1 - main),
                         );
                     }
                 }
-                if self.loop_depth == 1 && self.case.kind == Kind::Pso {
+                if self.loop_depth == main && self.case.kind == Kind::Pso {
                     self.global_best_relation(state, "a loop pass", &mut d);
                 }
-                if self.loop_depth == 1 {
+                if self.loop_depth == main {
                     d.passes_main += 1;
                     d.calls_in_last_pass = (problem.instr().n_calls() - self.calls_at_pass_begin) as u64;
                     if let Ok(pops) = state.try_borrow::<Populations<P>>() {
@@ -903,12 +915,12 @@ impl<P: HProblem> Observer<P> for Obs<P> {
                             }
                         }
                     }
-                } else {
+                } else if self.loop_depth > main {
                     d.probe("inner loop pass");
                 }
             }
             LoopEvent::Exit => {
-                if self.loop_depth >= 2 {
+                if self.loop_depth > if self.case.nest > 0 { 2 } else { 1 } {
                     d.probe("inner loop finished");
                 }
                 self.loop_depth = self.loop_depth.saturating_sub(1);
